@@ -163,6 +163,12 @@ def run(ctx):
                     whole = bool(lps) and lps[-1].iter_term is not None and not ctx.shape_adapters(lps[-1].iter_term) and lps[-1].driver_only_exit and ctx.every_iteration(init, lps[-1], pbb)
                     src = strip(lps[-1].iter_term) if lps else None
                     ok = whole and src is not None and src.tag == 'param' and src[2] == 2 and canon(val) == 'compress(each(p2))' and strip(f.get('commitments')).tag == 'param' and strip(f.get('commitments'))[2] == 2
+            if cc is not None and strip(cc).tag == 'map':
+                # iterator form: commitments.iter().map(compress).collect()
+                m = strip(cc)
+                src = strip(m[1])
+                ok = not ctx.shape_adapters(m[1]) and src.tag == 'param' and src[2] == 2 and canon(mk_elem(ctx.eng, m)) == 'compress(each(p2))' \
+                    and strip(f.get('commitments')).tag == 'param' and strip(f.get('commitments'))[2] == 2
             rep.check(ok, 'R-C05-4', 'R-C05-4/commitments', 'commitments_compressed is the whole, in-order compress() map of the stored commitments', 'commitments_compressed is %s' % det, ctx.where(init))
     # Pedersen generators: compressed[i] = compress(point[i]) (R-C11-4) and the same prefix is handed out
     from . import C11
